@@ -239,7 +239,16 @@ func (w *World) MonitorFail(f *Fake, kill bool) {
 		f.Alive = false
 	}
 	f.mu.Unlock()
-	if c != nil {
+	if c != nil && w.Net && (w.forceHang || w.R.Chance(25)) {
+		w.forceHang = false
+		// the replica hangs first - long enough for the monitor's next ping (one every 2 s) to be outstanding - and
+		// only then the connection goes away: the failure arrives while the monitor waits for a reply, not between pings
+		atomic.StoreInt32(&f.PingHang, 1)
+		time.Sleep(2400 * time.Millisecond)
+		c.InjectMonitor(fmt.Errorf("connection lost"))
+		atomic.StoreInt32(&f.PingHang, 0)
+		w.Res.Count("monitor_failures_with_a_ping_outstanding", 1)
+	} else if c != nil {
 		if w.Net || w.R.Bool() {
 			c.InjectMonitor(fmt.Errorf("Ping timeout"))
 		} else {
